@@ -168,3 +168,38 @@ func envFail(c *explore.Ctx, what string) {
 	c.Eval()
 	c.Violate("ENV", 0, sigOf(c.Prop, "environment", "error: "+what), what, "environment set-up from fixed valid inputs")
 }
+
+// renameTerm rewrites term from -> to in every instance of the field (in place) and returns the batch.
+func renameTerm(b []model.Doc, field, from, to string) []model.Doc {
+	if from == to {
+		return b
+	}
+	for _, d := range b {
+		for fi := range d {
+			if d[fi].N != field {
+				continue
+			}
+			for ti := range d[fi].Terms {
+				if d[fi].Terms[ti].T == from {
+					d[fi].Terms[ti].T = to
+				}
+			}
+		}
+	}
+	return b
+}
+
+// limitWriter accepts limit bytes and then fails (a partial write of the call that crosses the limit).
+type limitWriter struct {
+	limit, n int
+}
+
+func (w *limitWriter) Write(p []byte) (int, error) {
+	if w.n+len(p) <= w.limit {
+		w.n += len(p)
+		return len(p), nil
+	}
+	k := w.limit - w.n
+	w.n = w.limit
+	return k, fmt.Errorf("device full after %d bytes", w.limit)
+}
